@@ -42,6 +42,8 @@ pub use crate::settings::{
     ParserAlgo, Settings,
 };
 pub use crate::table::TableType;
+#[cfg(feature = "verif")]
+pub use crate::table::verif;
 
 pub use crate::error::Error;
 pub use crate::error::Result;
